@@ -369,40 +369,39 @@ Lemma same_core_decl st st' : same_core st st' -> declared (as_rstate st') = dec
 Proof. intros (H1 & H2 & H3). unfold declared, as_rstate. cbn. now rewrite H2, H3. Qed.
 
 Lemma parse_ops_list k fs rest : plain_kind k -> match k with KExpr | KRef => False | _ => True end ->
-  forall ops acc st s s' fuel,
+  forall ops acc st s s',
     ss_func st = Some fs -> lrel st s ->
     tops_ok fs (declared (as_rstate st)) k (length acc) ops -> l_ops s ops = Some s' ->
-    (length ops < fuel)%nat ->
-    exists st', parse_ops fuel k st acc (sep_toks tk_op ops ++ TNL :: rest) = Some (rev acc ++ pops ops, false, st', rest)
-                /\ same_core st st' /\ lrel st' s'.
+    exists st', same_core st st' /\ lrel st' s'
+      /\ forall fuel, (length ops < fuel)%nat ->
+            parse_ops fuel k st acc (sep_toks tk_op ops ++ TNL :: rest) = Some (rev acc ++ pops ops, false, st', rest).
 Proof.
-  intros Hk Hk2. induction ops as [|o ops IH]; intros acc st s s' fuel Hfs Hrel Hok Hl Hfuel.
-  - destruct fuel; [cbn in Hfuel; lia|]. cbn [sep_toks app parse_ops l_ops pops map] in *. inversion Hl; subst s'.
-    exists st. rewrite app_nil_r. split; [reflexivity | split; [apply same_core_refl | exact Hrel]].
-  - destruct fuel; [cbn in Hfuel; lia|].
-    cbn [tops_ok l_ops] in Hok, Hl. destruct Hok as [Ho Hops].
+  intros Hk Hk2. induction ops as [|o ops IH]; intros acc st s s' Hfs Hrel Hok Hl.
+  - cbn [l_ops] in Hl. inversion Hl; subst s'. exists st. split; [apply same_core_refl|]. split; [exact Hrel|].
+    intros fuel Hfuel. destruct fuel; [cbn in Hfuel; lia|]. cbn [sep_toks app parse_ops pops map]. now rewrite app_nil_r.
+  - cbn [tops_ok l_ops] in Hok, Hl. destruct Hok as [Ho Hops].
     destruct (l_op s o) as [s1|] eqn:El; [|discriminate].
     destruct (tk_op_head o) as (t & r & Et & Hn1 & Hn2).
     destruct ops as [|o2 ops'].
     + (* last operand *)
-      rewrite sep_toks_one. 
       destruct (parse_op_insn k (length acc) st fs s o s1 (TNL :: rest) Hk Hk2 Hfs Hrel Ho El I) as (st1 & Ep & Hc1 & Hr1).
-      rewrite Et in *. cbn [app] in *. rewrite parse_ops_unfold by assumption. cbv zeta. rewrite Ep.
       cbn [l_ops] in Hl. inversion Hl; subst s'.
-      exists st1. split; [|split; assumption].
+      exists st1. split; [assumption|]. split; [assumption|].
+      intros fuel Hfuel. destruct fuel; [cbn in Hfuel; lia|].
+      rewrite sep_toks_one. rewrite Et in *. cbn [app] in *. rewrite parse_ops_unfold by assumption. cbv zeta. rewrite Ep.
       cbn [rev pops map]. reflexivity.
-    + rewrite sep_toks_cons2. rewrite <- app_assoc. cbn [app].
-      destruct (parse_op_insn k (length acc) st fs s o s1 (TComma :: sep_toks tk_op (o2 :: ops') ++ TNL :: rest) Hk Hk2 Hfs Hrel Ho El I)
+    + destruct (parse_op_insn k (length acc) st fs s o s1 (TComma :: sep_toks tk_op (o2 :: ops') ++ TNL :: rest) Hk Hk2 Hfs Hrel Ho El I)
         as (st1 & Ep & Hc1 & Hr1).
-      rewrite Et in *. cbn [app] in *. rewrite parse_ops_unfold by assumption. cbv zeta. rewrite Ep.
-      destruct (IH (POp (tnorm_op o) :: acc) st1 s1 s' fuel) as (st2 & E2 & Hc2 & Hr2).
+      destruct (IH (POp (tnorm_op o) :: acc) st1 s1 s') as (st2 & Hc2 & Hr2 & E2).
       * destruct Hc1 as (_ & _ & ->). exact Hfs.
       * exact Hr1.
       * rewrite (same_core_decl st st1 Hc1). exact Hops.
       * exact Hl.
-      * cbn [length] in Hfuel |- *. lia.
-      * exists st2. split; [|split; [eapply same_core_trans; eassumption | assumption]].
-        rewrite E2. cbn [rev pops map]. now rewrite <- app_assoc.
+      * exists st2. split; [eapply same_core_trans; eassumption|]. split; [assumption|].
+        intros fuel Hfuel. destruct fuel; [cbn in Hfuel; lia|].
+        rewrite sep_toks_cons2. rewrite <- app_assoc. cbn [app].
+        rewrite Et in *. cbn [app] in *. rewrite parse_ops_unfold by assumption. cbv zeta. rewrite Ep.
+        rewrite E2 by (cbn [length] in Hfuel |- *; lia). cbn [rev pops map]. now rewrite <- app_assoc.
 Qed.
 
 (* ---------------------------------------------------------------- statements inside a function *)
@@ -465,4 +464,231 @@ Qed.
 Lemma all_ops_pops ops : all_ops (pops ops) = Some (map tnorm_op ops).
 Proof.
   induction ops as [|o ops IH]; [reflexivity|]. unfold all_ops, pops in *. cbn [map fold_right]. now rewrite IH.
+Qed.
+
+Lemma top_ok_change fs fs' d d' lp o :
+  (forall x, func_reg_p fs' x = func_reg_p fs x) -> (forall x, d' x = d x) ->
+  top_ok fs d lp o -> top_ok fs' d' lp o.
+Proof.
+  intros Hf Hd. destruct o as [r|i|u|b|b|b|m|n|str0|l]; cbn [top_ok]; try tauto.
+  - now rewrite Hf.
+  - unfold opt_reg_ok. destruct (m_base m), (m_index m); rewrite ?Hf; tauto.
+  - now rewrite Hf, Hd.
+Qed.
+
+Lemma tops_ok_change fs fs' d d' k ops : forall pos,
+  (forall x, func_reg_p fs' x = func_reg_p fs x) -> (forall x, d' x = d x) ->
+  tops_ok fs d k pos ops -> tops_ok fs' d' k pos ops.
+Proof.
+  induction ops as [|o ops IH]; intros pos Hf Hd H; [exact I|].
+  destruct H as [Ho Hops]. split; [eapply top_ok_change; eassumption | now apply IH].
+Qed.
+
+Lemma scan_stmt_name F st x r : scan_stmt F st (TName x :: r) = scan_body F st (TName x :: r).
+Proof. reflexivity. Qed.
+
+Lemma label_lines_head labs nm r : exists x r', label_lines labs ++ TName nm :: r = TName x :: r'.
+Proof. destruct labs as [|l labs]; cbn [label_lines flat_map app]; eexists _, _; reflexivity. Qed.
+
+Lemma plain_kind_insn c : plain_kind (KInsn c).
+Proof. repeat split. Qed.
+
+(* an instruction line with the label lines in front of it *)
+Lemma stmt_insn st fs s labs c ops s1 s2 rest :
+  ss_func st = Some fs -> lrel st s -> readable_code c = true ->
+  l_defs s labs = Some s1 -> l_ops s1 ops = Some s2 ->
+  tops_ok fs (declared (as_rstate st)) (KInsn c) 0 ops ->
+  (var_arity c = false -> length ops = insn_nops c) ->
+  exists st', ss_mods st' = ss_mods st /\ ss_mod st' = ss_mod st
+    /\ ss_func st' = Some (fs_set_insns fs (IInsn c (map tnorm_op ops) :: rev (map ILabel labs) ++ fs_insns fs))
+    /\ lrel st' s2
+    /\ forall F, (length labs < F)%nat -> (length ops < F)%nat ->
+          scan_stmt F st (label_lines labs ++ tk_insn (IInsn c ops) ++ rest) = SNext st' rest.
+Proof.
+  intros Hfs Hrel Hrd Hdef Hops Hok Har.
+  destruct (def_labels_sim labs st s s1 fs Hfs Hrel Hdef) as (st1 & E1 & M1 & M2 & F1 & Hr1).
+  set (fs1 := fs_set_insns fs (rev (map ILabel labs) ++ fs_insns fs)) in *.
+  assert (Hok1 : tops_ok fs1 (declared (as_rstate st1)) (KInsn c) (length (@nil sop)) ops).
+  { eapply tops_ok_change; [ | | exact Hok].
+    - intros y. reflexivity.
+    - intros y. unfold declared, as_rstate. cbn. rewrite M2, F1, Hfs. destruct (ss_mod st); reflexivity. }
+  destruct (parse_ops_list (KInsn c) fs1 rest (plain_kind_insn c) I ops [] st1 s1 s2 F1 Hr1 Hok1 Hops)
+    as (st2 & (C1 & C2 & C3) & Hr2 & E2).
+  eexists. split; [|split; [|split; [|split]]]; cycle 4.
+  - intros F HF1 HF2.
+    cbn [tk_insn app]. rewrite <- app_assoc. cbn [app].
+    destruct (label_lines_head labs (insn_name c) (sep_toks tk_op ops ++ TNL :: rest)) as (x & r' & Eh).
+    rewrite Eh, scan_stmt_name, <- Eh. clear Eh x r'.
+    unfold scan_body.
+    rewrite parse_labels_lines; [ | | assumption].
+    2:{ destruct (sep_toks tk_op ops) as [|t ts] eqn:E; [exact I|].
+        destruct ops as [|o ops']; [discriminate|].
+        destruct (tk_op_head o) as (t0 & r0 & Et & _).
+        destruct ops'; [rewrite sep_toks_one in E | rewrite sep_toks_cons2 in E]; rewrite Et in E; inversion E; subst;
+          destruct o; cbn [tk_op] in Et; try (inversion Et; subst; exact I); unfold tk_mem in Et; inversion Et; subst; exact I. }
+    cbn [rev app]. rewrite stmt_kind_insn by assumption.
+    cbn [label_count_bad is_var andb]. rewrite E1.
+    rewrite E2 by assumption. cbn [rev app]. unfold stmt_exec. rewrite all_ops_pops.
+    assert (Harity : (negb (var_arity c) && negb (Nat.eqb (length (map tnorm_op ops)) (insn_nops c)))%bool = false).
+    { rewrite map_length. destruct (var_arity c); [reflexivity|]. rewrite (Har eq_refl), Nat.eqb_refl. reflexivity. }
+    rewrite Harity, C3, F1. reflexivity.
+  - cbn [ss_mods]. congruence.
+  - cbn [ss_mod]. congruence.
+  - reflexivity.
+  - destruct Hr2 as [[T1 T2 T3 T4] Hn]. split; [constructor; assumption | assumption].
+Qed.
+
+Lemma stmt_endfunc st mn items fs s labs s1 rest :
+  ss_mod st = Some (mn, items) -> ss_func st = Some fs -> lrel st s -> l_defs s labs = Some s1 ->
+  exists st', ss_mods st' = ss_mods st
+    /\ ss_mod st' = Some (mn, ItFunc (close_func (fs_set_insns fs (rev (map ILabel labs) ++ fs_insns fs))) :: items)
+    /\ ss_func st' = None /\ lrel st' s1
+    /\ forall F, (length labs < F)%nat ->
+          scan_stmt F st (label_lines labs ++ TName (str "endfunc") :: TNL :: rest) = SNext st' rest.
+Proof.
+  intros Hmod Hfs Hrel Hdef.
+  destruct (def_labels_sim labs st s s1 fs Hfs Hrel Hdef) as (st1 & E1 & M1 & M2 & F1 & Hr1).
+  eexists. split; [|split; [|split; [|split]]]; cycle 4.
+  - intros F HF.
+    destruct (label_lines_head labs (str "endfunc") (TNL :: rest)) as (x & r' & Eh).
+    rewrite Eh, scan_stmt_name, <- Eh. clear Eh x r'.
+    unfold scan_body. rewrite parse_labels_lines by (try assumption; exact I).
+    cbn [rev app]. change (stmt_kind (str "endfunc")) with (Some KEndfunc).
+    cbn [label_count_bad is_var andb].
+    rewrite E1, Hfs. destruct F as [|F']; [lia|]. cbn [parse_ops rev].
+    unfold stmt_exec. rewrite M2, Hmod, F1. reflexivity.
+  - cbn [ss_mods]. assumption.
+  - reflexivity.
+  - reflexivity.
+  - destruct Hr1 as [[T1 T2 T3 T4] Hn]. split; [constructor; assumption | assumption].
+Qed.
+
+(* ---------------------------------------------------------------- the scan loop as a simulation *)
+
+Definition sreaches (st : sstate) (ts : list ttok) (st' : sstate) (r : list ttok) : Prop :=
+  forall fuel, (length ts < fuel)%nat ->
+    exists fuel', (length r < fuel')%nat /\ scan_loop fuel st ts = scan_loop fuel' st' r.
+
+Lemma sreaches_refl st ts : sreaches st ts st ts.
+Proof. intros fuel H. exists fuel. split; [assumption | reflexivity]. Qed.
+
+Lemma sreaches_trans st1 ts1 st2 ts2 st3 ts3 :
+  sreaches st1 ts1 st2 ts2 -> sreaches st2 ts2 st3 ts3 -> sreaches st1 ts1 st3 ts3.
+Proof.
+  intros H1 H2 fuel Hf. destruct (H1 fuel Hf) as [f1 [Hf1 E1]]. destruct (H2 f1 Hf1) as [f2 [Hf2 E2]].
+  exists f2. split; [assumption | congruence].
+Qed.
+
+Lemma sreaches_step st toks rest st' :
+  (0 < length toks)%nat ->
+  (forall F, (length (toks ++ rest) < F)%nat -> scan_stmt F st (toks ++ rest) = SNext st' rest) ->
+  sreaches st (toks ++ rest) st' rest.
+Proof.
+  intros Hne Hs fuel Hf. destruct fuel as [|fuel]; [lia|].
+  exists fuel. split; [rewrite app_length in Hf; lia|]. cbn [scan_loop]. now rewrite Hs.
+Qed.
+
+Lemma sreaches_nl st ts st' r : sreaches st ts st' r -> sreaches st (TNL :: ts) st' r.
+Proof.
+  intros H fuel Hf. destruct (H fuel ltac:(cbn [length] in Hf; lia)) as [f' [Hf' E]].
+  exists f'. split; [assumption|]. rewrite <- E.
+  destruct fuel as [|fuel]; [reflexivity|]. cbn [scan_loop]. reflexivity.
+Qed.
+
+(* ---------------------------------------------------------------- function bodies *)
+
+Fixpoint l_insns (s : lstate) (insns : list insn) : option lstate :=
+  match insns with
+  | [] => Some s
+  | ILabel l :: r => match l_def s l with Some s1 => l_insns s1 r | None => None end
+  | IInsn _ ops :: r => match l_ops s ops with Some s1 => l_insns s1 r | None => None end
+  end.
+
+Lemma l_defs_app s a b : l_defs s (a ++ b) = match l_defs s a with Some s1 => l_defs s1 b | None => None end.
+Proof. revert s; induction a as [|l a IH]; intros s; [reflexivity|]. cbn [app l_defs]. destruct (l_def s l); [apply IH | reflexivity]. Qed.
+
+Definition insn_ok (fs : fstate) (d : name -> bool) (i : insn) : Prop :=
+  match i with
+  | ILabel _ => True
+  | IInsn c ops => readable_code c = true /\ tops_ok fs d (KInsn c) 0 ops /\ (var_arity c = false -> length ops = insn_nops c)
+  end.
+
+Lemma label_lines_app a b : label_lines (a ++ b) = label_lines a ++ label_lines b.
+Proof. unfold label_lines. now rewrite flat_map_app. Qed.
+
+Lemma tk_op_nonempty o : (1 <= length (tk_op o))%nat.
+Proof. destruct (tk_op_head o) as (t & r & E & _). rewrite E. cbn. lia. Qed.
+
+Lemma sep_toks_length ops : (length ops <= length (sep_toks tk_op ops))%nat.
+Proof.
+  induction ops as [|o ops IH]; [cbn; lia|]. destruct ops as [|o2 ops'].
+  - rewrite sep_toks_one. pose proof (tk_op_nonempty o). cbn [length]. lia.
+  - rewrite sep_toks_cons2, app_length. cbn [length] in *. pose proof (tk_op_nonempty o). lia.
+Qed.
+
+Lemma label_lines_length labs : length (label_lines labs) = (3 * length labs)%nat.
+Proof. induction labs as [|l labs IH]; [reflexivity|]. cbn [label_lines flat_map app length] in *. fold (label_lines labs). rewrite IH. lia. Qed.
+
+
+Lemma tbody_loop mn items d rest : forall insns labs st fs s s1 s',
+  ss_mod st = Some (mn, items) -> ss_func st = Some fs -> lrel st s ->
+  (forall x, declared (as_rstate st) x = d x) ->
+  l_defs s labs = Some s1 -> l_insns s1 insns = Some s' -> Forall (insn_ok fs d) insns ->
+  exists st', sreaches st (label_lines labs ++ flat_map tk_insn insns ++ TName (str "endfunc") :: TNL :: rest) st' rest
+    /\ ss_mods st' = ss_mods st
+    /\ ss_mod st' = Some (mn, ItFunc (close_func (fs_set_insns fs
+                         (rev (map tnorm_insn insns) ++ rev (map ILabel labs) ++ fs_insns fs))) :: items)
+    /\ ss_func st' = None /\ lrel st' s'.
+Proof.
+  induction insns as [|i insns IH]; intros labs st fs s s1 s' Hmod Hfs Hrel Hd Hdefs Hins Hok.
+  - cbn [l_insns] in Hins. inversion Hins; subst s'. cbn [flat_map app map rev].
+    destruct (stmt_endfunc st mn items fs s labs s1 rest Hmod Hfs Hrel Hdefs) as (st' & H1 & H2 & H3 & H4 & Hstep).
+    exists st'. split; [|split; [assumption | split; [exact H2 | split; assumption]]].
+    replace (label_lines labs ++ TName (str "endfunc") :: TNL :: rest)
+      with ((label_lines labs ++ [TName (str "endfunc"); TNL]) ++ rest) by (rewrite <- app_assoc; reflexivity).
+    apply sreaches_step; [rewrite app_length; cbn; lia|].
+    intros F HF. rewrite <- app_assoc. cbn [app]. apply Hstep.
+    rewrite !app_length, label_lines_length in HF. cbn [length] in HF. lia.
+  - pose proof (Forall_inv Hok) as Hi. pose proof (Forall_inv_tail Hok) as Hoks.
+    destruct i as [l|c ops].
+    + (* a label line joins the pending ones *)
+      cbn [l_insns] in Hins. destruct (l_def s1 l) as [s2|] eqn:Ed; [|discriminate].
+      destruct (IH (labs ++ [l]) st fs s s2 s' Hmod Hfs Hrel Hd) as (st' & Hre & H1 & H2 & H3 & H4); try assumption.
+      { rewrite l_defs_app, Hdefs. cbn [l_defs]. now rewrite Ed. }
+      exists st'. split; [|split; [assumption|split; [|split; assumption]]].
+      * cbn [flat_map tk_insn app]. rewrite label_lines_app in Hre. rewrite <- app_assoc in Hre. exact Hre.
+      * rewrite H2. do 5 f_equal. cbn [map tnorm_insn rev]. rewrite map_app, rev_app_distr. cbn [map rev app].
+        rewrite <- !app_assoc. reflexivity.
+    + cbn [l_insns] in Hins. destruct (l_ops s1 ops) as [s2|] eqn:Eo; [|discriminate].
+      destruct Hi as (Hrd & Htops & Har).
+      assert (Htops' : tops_ok fs (declared (as_rstate st)) (KInsn c) 0 ops).
+      { eapply tops_ok_change; [ | | exact Htops]; [reflexivity | exact Hd]. }
+      destruct (stmt_insn st fs s labs c ops s1 s2 (flat_map tk_insn insns ++ TName (str "endfunc") :: TNL :: rest)
+                  Hfs Hrel Hrd Hdefs Eo Htops' Har) as (st1 & M1 & M2 & F1 & Hr1 & Hstep).
+      set (fs1 := fs_set_insns fs (IInsn c (map tnorm_op ops) :: rev (map ILabel labs) ++ fs_insns fs)) in *.
+      destruct (IH [] st1 fs1 s2 s2 s') as (st' & Hre & H1 & H2 & H3 & H4).
+      * congruence.
+      * exact F1.
+      * exact Hr1.
+      * intros x. rewrite <- Hd. unfold declared, as_rstate. cbn. rewrite M2, F1, Hfs. destruct (ss_mod st); reflexivity.
+      * reflexivity.
+      * exact Hins.
+      * eapply Forall_impl; [|exact Hoks]. intros [l|c' ops']; [tauto|]. cbn [insn_ok].
+        intros (A & B & C). split; [assumption|]. split; [|assumption].
+        eapply tops_ok_change; [ | | exact B]; reflexivity.
+      * exists st'. split; [|split; [congruence|split; [|split; assumption]]].
+        -- eapply sreaches_trans; [|exact Hre].
+           cbn [flat_map]. rewrite <- app_assoc.
+           replace (label_lines labs ++ tk_insn (IInsn c ops) ++ flat_map tk_insn insns ++ TName (str "endfunc") :: TNL :: rest)
+             with ((label_lines labs ++ tk_insn (IInsn c ops)) ++ flat_map tk_insn insns ++ TName (str "endfunc") :: TNL :: rest)
+             by now rewrite <- app_assoc.
+           cbn [label_lines flat_map app].
+           apply sreaches_step; [rewrite app_length; cbn [tk_insn length]; lia|].
+           intros F HF. rewrite <- app_assoc. apply Hstep.
+           ++ rewrite !app_length, label_lines_length in HF. lia.
+           ++ rewrite !app_length in HF. cbn [tk_insn length] in HF. rewrite app_length in HF.
+              pose proof (sep_toks_length ops). lia.
+        -- rewrite H2. do 5 f_equal. unfold fs1, fs_set_insns.
+           cbn [map tnorm_insn rev fs_insns fs_name fs_vararg fs_res fs_args fs_locals fs_globals app].
+           rewrite <- !app_assoc. reflexivity.
 Qed.
